@@ -1,5 +1,6 @@
 import OZ.Model.FeeForwarder
 import OZ.Lemmas.Fungible
+import OZ.Lemmas.FungibleAuth
 /-
 Helper lemmas for the fee-forwarder model: the allow-list invariant (the two maps are
 mutually inverse and the indices are gap-free), its preservation by allow / disallow
@@ -508,6 +509,277 @@ theorem collectFee_ok {p : Params} {s s' : State} {au : Auth} {tok : Nat} {fee m
   · simp only [emit]; rw [upd_same, b6, hb]
   · intro x y hxy; simp only [emit]; rw [upd_same, b7 x y hxy, hal]; exact a3 x y hxy
 
+theorem ok_bind {ε α β} (a : α) (f : α → Except ε β) : ((Except.ok a : Except ε α) >>= f) = f a := rfl
+
+/-! ### exact allowance bookkeeping of the fee token -/
+
+/-- after a successful `approve` of a positive amount the stored record reads `{amt, lu}` -/
+theorem approve_allowanceData {c : Cfg} {s s' : OZ.Fungible.State} {auth : List Nat} {o sp : Nat}
+    {amt : Int} {lu : Nat} (h : OZ.Fungible.approve c s auth o sp amt lu = .ok s') (hp : 0 < amt) :
+    OZ.Fungible.allowanceData s' o sp = ⟨amt, lu⟩ := by
+  obtain ⟨_, s0, hset, e⟩ := OZ.Fungible.approve_ok h
+  subst e
+  obtain ⟨_, _, hnow, e', he', hv', hlu', _⟩ := OZ.Fungible.setAllowance_entry hset
+  obtain ⟨_, _, en, _, _⟩ := OZ.Fungible.setAllowance_ok hset
+  have : OZ.Fungible.allowanceData s0 o sp = e'.val :=
+    OZ.Fungible.allowanceData_live he' (by rw [en]; have := hlu' hp; have := hnow hp; omega)
+      (by rw [hv', en]; exact hnow hp)
+  rw [OZ.Fungible.allowanceData_congr_entry (s := s0) (s' := OZ.Fungible.emit s0 _) rfl rfl, this, hv']
+
+/-- a successful `transfer_from` of a positive amount lowers the stored allowance record by
+exactly the amount and keeps its `live_until_ledger`; the record's expiry was within the host's
+maximum lifetime and the credit stayed inside i128 -/
+theorem transferFrom_allowanceData {c : Cfg} {s s' : OZ.Fungible.State} {auth : List Nat} {sp f t : Nat}
+    {amt : Int} (h : OZ.Fungible.transferFrom c s auth sp f t amt = .ok s') (hp : 0 < amt) :
+    OZ.Fungible.allowanceData s' f sp =
+      ⟨(OZ.Fungible.allowanceData s f sp).amount - amt, (OZ.Fungible.allowanceData s f sp).liveUntilLedger⟩ ∧
+    amt ≤ (OZ.Fungible.allowanceData s f sp).amount ∧
+    (OZ.Fungible.allowanceData s f sp).liveUntilLedger ≤ c.maxLiveUntil s.now ∧
+    in128 ((upd s.bal f (s.bal f - amt)) t + amt) := by
+  obtain ⟨_, s0, s1, h0, h1, e⟩ := OZ.Fungible.transferFrom_ok h
+  subst e
+  obtain ⟨_, hle, hc⟩ := OZ.Fungible.spendAllowance_cases h0
+  obtain ⟨_, _, _, e, e', he, hl, hx, _, he', hv', hmono, _⟩ := OZ.Fungible.spendAllowance_pos h0 hp
+  obtain ⟨_, eb, en, _, _⟩ := OZ.Fungible.spendAllowance_ok h0
+  have hd : OZ.Fungible.allowanceData s f sp = e.val := OZ.Fungible.allowanceData_live he hl hx
+  have hd0 : OZ.Fungible.allowanceData s0 f sp = e'.val :=
+    OZ.Fungible.allowanceData_live he' (by rw [en]; omega) (by rw [hv', en]; exact hx)
+  obtain ⟨_, sd, hdeb, hcred⟩ := OZ.Fungible.update_ok h1
+  obtain ⟨da, dn, _, hd4⟩ := OZ.Fungible.debit_ok hdeb
+  obtain ⟨ca, cn, _, hc4⟩ := OZ.Fungible.credit_ok hcred
+  dsimp only at hd4 hc4
+  refine ⟨?_, hle, ?_, ?_⟩
+  · rw [OZ.Fungible.allowanceData_congr_entry (s := s0) (s' := OZ.Fungible.emit s1 _) (by simp only [OZ.Fungible.emit]; rw [ca, da])
+      (by simp only [OZ.Fungible.emit]; rw [cn, dn]), hd0, hv', hd]
+  · rcases hc with ⟨_, hset⟩ | ⟨hz, _⟩
+    · exact (OZ.Fungible.setAllowance_entry hset).2.1
+    · omega
+  · have := hc4.2.2
+    rw [hd4.2.2, eb] at this
+    exact this
+
+theorem approve_succeeds (c : Cfg) (s : OZ.Fungible.State) (auth : List Nat) (o sp : Nat) (amt : Int)
+    (lu : Nat) (ha : o ∈ auth) (h0 : 0 ≤ amt) (h1 : lu ≤ c.maxLiveUntil s.now) (h2 : 0 < amt → s.now ≤ lu) :
+    ∃ s', OZ.Fungible.approve c s auth o sp amt lu = .ok s' := by
+  obtain ⟨s0, hs0⟩ := OZ.Fungible.setAllowance_succeeds c s o sp amt lu (by omega)
+    (by rintro (h | ⟨h, h'⟩)
+        · omega
+        · have := h2 h; omega)
+  rw [OZ.Fungible.approve_eq_of_auth ha, hs0]
+  exact ⟨_, rfl⟩
+
+theorem transferFrom_succeeds (c : Cfg) (s : OZ.Fungible.State) (auth : List Nat) (sp f t : Nat) (amt : Int)
+    (ha : sp ∈ auth) (hp : 0 < amt) (hal : amt ≤ (OZ.Fungible.allowanceData s f sp).amount)
+    (hlu : (OZ.Fungible.allowanceData s f sp).liveUntilLedger ≤ c.maxLiveUntil s.now)
+    (hb : amt ≤ s.bal f) (hov : in128 ((upd s.bal f (s.bal f - amt)) t + amt)) :
+    ∃ s', OZ.Fungible.transferFrom c s auth sp f t amt = .ok s' := by
+  have hne : OZ.Fungible.allowance s f sp ≠ 0 := by unfold OZ.Fungible.allowance; omega
+  obtain ⟨e, _, _, hx, hd⟩ := OZ.Fungible.allowance_ne_zero_unexpired hne
+  obtain ⟨s0, hs0⟩ := OZ.Fungible.setAllowance_succeeds c s f sp
+    ((OZ.Fungible.allowanceData s f sp).amount - amt) (OZ.Fungible.allowanceData s f sp).liveUntilLedger
+    (by omega) (by rw [hd]; rw [hd] at hlu; rintro (h | ⟨_, h'⟩) <;> omega)
+  obtain ⟨_, eb, _, _, _⟩ := OZ.Fungible.setAllowance_ok hs0
+  have hsp : OZ.Fungible.spendAllowance c s f sp amt = .ok s0 := by
+    unfold OZ.Fungible.spendAllowance
+    rw [if_neg (by omega)]
+    dsimp only
+    rw [if_neg (by omega), if_pos (by omega)]
+    exact hs0
+  have hra : OZ.Fungible.requireAuth auth sp = .ok () := by
+    unfold OZ.Fungible.requireAuth; rw [if_pos ha]
+  have hupd : ∃ s1, OZ.Fungible.update s0 (some f) (some t) amt = .ok s1 := by
+    unfold OZ.Fungible.update
+    rw [if_neg (by omega)]
+    unfold OZ.Fungible.debit
+    dsimp only
+    rw [eb, if_neg (by omega)]
+    dsimp only
+    unfold OZ.Fungible.credit
+    dsimp only
+    rw [if_pos hov]
+    exact ⟨_, rfl⟩
+  obtain ⟨s1, hs1⟩ := hupd
+  unfold OZ.Fungible.transferFrom
+  rw [hra, ok_bind, hsp, ok_bind, hs1, ok_bind]
+  exact ⟨_, rfl⟩
+
+
+/-! ### exact allowance after `collect_fee`, and when it succeeds -/
+
+theorem allowanceData_tokAt_upd (s : State) (tok : Nat) (ts : OZ.Fungible.State) (o sp : Nat)
+    (hn : ts.now = s.now) :
+    OZ.Fungible.allowanceData (tokAt { s with toks := upd s.toks tok ts } tok) o sp =
+      OZ.Fungible.allowanceData ts o sp := by
+  apply OZ.Fungible.allowanceData_congr_entry
+  · show (upd s.toks tok ts tok).allow o sp = ts.allow o sp
+    rw [upd_same]
+  · exact hn.symm
+
+theorem tokenApprove_allowanceData {p : Params} {s s' : State} {au : Auth} {tok user : Nat} {max : Int}
+    {exp : Nat} (hp : 0 < max) (h : tokenApprove p s au tok user max exp = .ok s') :
+    OZ.Fungible.allowanceData (tokAt s' tok) user p.self = ⟨max, exp⟩ := by
+  unfold tokenApprove at h
+  obtain ⟨ts, hr, e⟩ := liftTok_ok h
+  subst e
+  have hn : ts.now = s.now := (approve_ok hr).2.2.2.1
+  rw [allowanceData_tokAt_upd s tok ts user p.self hn]
+  exact approve_allowanceData hr hp
+
+theorem approveStep_allowanceData {p : Params} {s s' : State} {au : Auth} {tok user : Nat} {max : Int}
+    {exp : Nat} {ap : Approval} (hp : 0 < max) (h : approveStep p s au tok user max exp ap = .ok s') :
+    OZ.Fungible.allowanceData (tokAt s' tok) user p.self =
+      if ap = .eager ∨ OZ.Fungible.allowance (tokAt s tok) user p.self < max then ⟨max, exp⟩
+      else OZ.Fungible.allowanceData (tokAt s tok) user p.self := by
+  cases ap with
+  | eager => rw [if_pos (.inl rfl)]; exact tokenApprove_allowanceData hp h
+  | lazy =>
+    dsimp only [approveStep] at h
+    split at h
+    · rename_i hlt; rw [if_pos (.inr hlt)]; exact tokenApprove_allowanceData hp h
+    · rename_i hge
+      rw [if_neg (by rintro (h' | h'); cases h'; exact hge h')]
+      split at h
+      · cases h
+      · injection h with h; subst h; rfl
+
+theorem tokenTransferFrom_allowanceData {p : Params} {s s' : State} {tok user rcp : Nat} {fee : Int}
+    (hp : 0 < fee) (h : tokenTransferFrom p s tok user rcp fee = .ok s') :
+    OZ.Fungible.allowanceData (tokAt s' tok) user p.self =
+      ⟨(OZ.Fungible.allowanceData (tokAt s tok) user p.self).amount - fee,
+       (OZ.Fungible.allowanceData (tokAt s tok) user p.self).liveUntilLedger⟩ ∧
+    fee ≤ (OZ.Fungible.allowanceData (tokAt s tok) user p.self).amount ∧
+    (OZ.Fungible.allowanceData (tokAt s tok) user p.self).liveUntilLedger ≤ p.cfg.maxLiveUntil s.now ∧
+    in128 ((upd (s.toks tok).bal user ((s.toks tok).bal user - fee)) rcp + fee) := by
+  unfold tokenTransferFrom at h
+  obtain ⟨ts, hr, e⟩ := liftTok_ok h
+  subst e
+  have hn : ts.now = s.now := (transferFrom_ok hr).2.2.2.2.1
+  rw [allowanceData_tokAt_upd s tok ts user p.self hn]
+  exact transferFrom_allowanceData hr hp
+
+/-- the stored allowance record user → forwarder after a successful `collect_fee`, exactly -/
+theorem collectFee_allowanceData {p : Params} {s s' : State} {au : Auth} {tok : Nat} {fee max : Int}
+    {exp : Nat} {user rcp : Nat} {ap : Approval}
+    (h : collectFee p s au tok fee max exp user rcp ap = .ok s') :
+    OZ.Fungible.allowanceData (tokAt s' tok) user p.self =
+      (if ap = .eager ∨ OZ.Fungible.allowance (tokAt s tok) user p.self < max then ⟨max - fee, exp⟩
+       else ⟨(OZ.Fungible.allowanceData (tokAt s tok) user p.self).amount - fee,
+             (OZ.Fungible.allowanceData (tokAt s tok) user p.self).liveUntilLedger⟩) ∧
+    (¬ (ap = .eager ∨ OZ.Fungible.allowance (tokAt s tok) user p.self < max) →
+      (OZ.Fungible.allowanceData (tokAt s tok) user p.self).liveUntilLedger ≤ p.cfg.maxLiveUntil s.now) ∧
+    in128 ((upd (s.toks tok).bal user ((s.toks tok).bal user - fee)) rcp + fee) := by
+  unfold collectFee at h
+  obtain ⟨_, _, h⟩ := bind_ok h
+  obtain ⟨_, _, h⟩ := bind_ok h
+  obtain ⟨_, h3, h⟩ := bind_ok h
+  obtain ⟨s1, h4, h⟩ := bind_ok h
+  obtain ⟨s2, h5, h⟩ := bind_ok h
+  injection h with h; subst h
+  obtain ⟨hf0, hfm⟩ := validateFeeBounds_ok h3
+  have hmax : 0 < max := by omega
+  obtain ⟨t1, _, a2, _, _, _⟩ := approveStep_ok hmax h4
+  have hA := approveStep_allowanceData hmax h4
+  obtain ⟨b1, _, b3, b4⟩ := tokenTransferFrom_allowanceData hf0 h5
+  have e : tokAt (emit s2 (.feeCollected user rcp tok fee)) tok = tokAt s2 tok := rfl
+  rw [e, b1, hA]
+  rw [hA, t1.now] at b3
+  rw [a2] at b4
+  refine ⟨?_, ?_, b4⟩
+  · split <;> rfl
+  · intro hn; rw [if_neg hn] at b3; exact b3
+
+/-- the conditions under which `collect_fee` goes through -/
+structure FeeConditions (p : Params) (s : State) (au : Auth) (tok : Nat) (fee max : Int) (exp : Nat)
+    (user rcp : Nat) (ap : Approval) : Prop where
+  token : isAllowedFeeToken s.al tok = true
+  notSelf : p.self ≠ user
+  feePos : 0 < fee
+  feeMax : fee ≤ max
+  notExpired : s.now ≤ exp
+  /-- when the forwarder approves on the user's behalf: the user signed the nested approve and
+  the token accepts the expiration as `live_until_ledger` -/
+  approve : (ap = .eager ∨ OZ.Fungible.allowance (tokAt s tok) user p.self < max) →
+    subSigned au user (approveInv p tok user max exp) = true ∧ exp ≤ p.cfg.maxLiveUntil s.now
+  /-- otherwise the existing (sufficient) allowance record can be rewritten by the token -/
+  keep : ¬ (ap = .eager ∨ OZ.Fungible.allowance (tokAt s tok) user p.self < max) →
+    (OZ.Fungible.allowanceData (tokAt s tok) user p.self).liveUntilLedger ≤ p.cfg.maxLiveUntil s.now
+  balance : fee ≤ (s.toks tok).bal user
+  noOverflow : in128 ((upd (s.toks tok).bal user ((s.toks tok).bal user - fee)) rcp + fee)
+
+theorem collectFee_conditions {p : Params} {s s' : State} {au : Auth} {tok : Nat} {fee max : Int}
+    {exp : Nat} {user rcp : Nat} {ap : Approval}
+    (h : collectFee p s au tok fee max exp user rcp ap = .ok s') :
+    FeeConditions p s au tok fee max exp user rcp ap := by
+  obtain ⟨c1, c2, c3, c4, c5, c6, _, _, _, _, _, _, c7, _, _⟩ := collectFee_ok h
+  obtain ⟨_, d2, d3⟩ := collectFee_allowanceData h
+  exact ⟨c1, c2, c3, c4, c5, c6, d2, c7, d3⟩
+
+theorem approveStep_succeeds {p : Params} {s : State} {au : Auth} {tok user : Nat} {max : Int} {exp : Nat}
+    {ap : Approval} (hmax : 0 < max) (hexp : s.now ≤ exp)
+    (happ : (ap = .eager ∨ OZ.Fungible.allowance (tokAt s tok) user p.self < max) →
+      subSigned au user (approveInv p tok user max exp) = true ∧ exp ≤ p.cfg.maxLiveUntil s.now) :
+    ∃ s1, approveStep p s au tok user max exp ap = .ok s1 := by
+  have viaApprove : (ap = .eager ∨ OZ.Fungible.allowance (tokAt s tok) user p.self < max) →
+      ∃ s1, tokenApprove p s au tok user max exp = .ok s1 := by
+    intro hn
+    obtain ⟨hs, hl⟩ := happ hn
+    unfold tokenApprove
+    rw [if_pos hs]
+    obtain ⟨ts, hts⟩ := approve_succeeds p.cfg (tokAt s tok) [user] user p.self max exp
+      (List.mem_singleton.mpr rfl) (by omega) hl (fun _ => hexp)
+    rw [hts]
+    exact ⟨_, rfl⟩
+  cases ap with
+  | eager => exact viaApprove (.inl rfl)
+  | lazy =>
+    dsimp only [approveStep]
+    by_cases hlt : OZ.Fungible.allowance (tokAt s tok) user p.self < max
+    · rw [if_pos hlt]; exact viaApprove (.inr hlt)
+    · rw [if_neg hlt]
+      have : validateExpirationLedger s.now exp = .ok () := by
+        unfold validateExpirationLedger; rw [if_neg (by omega)]
+      rw [this]
+      exact ⟨_, rfl⟩
+
+/-- completeness of `collect_fee`: under the conditions it succeeds -/
+theorem collectFee_succeeds {p : Params} {s : State} {au : Auth} {tok : Nat} {fee max : Int}
+    {exp : Nat} {user rcp : Nat} {ap : Approval} (hc : FeeConditions p s au tok fee max exp user rcp ap) :
+    ∃ s', collectFee p s au tok fee max exp user rcp ap = .ok s' := by
+  have hmax : 0 < max := by have := hc.feePos; have := hc.feeMax; omega
+  obtain ⟨s1, h4⟩ := approveStep_succeeds (au := au) (tok := tok) (user := user) (p := p) (ap := ap)
+    hmax hc.notExpired hc.approve
+  obtain ⟨t1, _, a2, _, _, _⟩ := approveStep_ok hmax h4
+  have hA := approveStep_allowanceData hmax h4
+  have hb : (tokAt s1 tok).bal = (s.toks tok).bal := a2
+  obtain ⟨ts, hts⟩ := transferFrom_succeeds p.cfg (tokAt s1 tok) [p.self] p.self user rcp fee
+    (List.mem_singleton.mpr rfl) hc.feePos
+    (by rw [hA]; split
+        · exact hc.feeMax
+        · rename_i hn
+          have : max ≤ OZ.Fungible.allowance (tokAt s tok) user p.self := by
+            have : ¬ OZ.Fungible.allowance (tokAt s tok) user p.self < max := fun h => hn (.inr h)
+            omega
+          have := hc.feeMax
+          unfold OZ.Fungible.allowance at *; omega)
+    (by rw [hA]
+        have hnow : (tokAt s1 tok).now = s.now := t1.now
+        rw [hnow]
+        split
+        · rename_i hn; exact (hc.approve hn).2
+        · rename_i hn; exact hc.keep hn)
+    (by rw [hb]; exact hc.balance)
+    (by rw [hb]; exact hc.noOverflow)
+  have h5 : tokenTransferFrom p s1 tok user rcp fee = .ok { s1 with toks := upd s1.toks tok ts } := by
+    unfold tokenTransferFrom; rw [hts]; rfl
+  have hv : validateFeeBounds fee max = .ok () := by
+    unfold validateFeeBounds
+    rw [if_neg (by have := hc.feePos; have := hc.feeMax; omega)]
+  unfold collectFee
+  rw [hc.token, ensure_true, ok_bind]
+  rw [show decide (p.self ≠ user) = true from decide_eq_true hc.notSelf, ensure_true, ok_bind]
+  rw [hv, ok_bind, h4, ok_bind, h5, ok_bind]
+  exact ⟨_, rfl⟩
+
 /-! ### `collect_fee_and_invoke` -/
 
 theorem invokeTarget_ok {s s' : State} {au : Auth} {user : Nat} {i : Inv} {tgt : Target}
@@ -537,6 +809,61 @@ theorem collectFeeAndInvoke_ok {p : Params} {s s' : State} {au : Auth} {c : Call
   obtain ⟨e, hf, hu⟩ := invokeTarget_ok h3
   subst e
   exact ⟨ensure_ok h1, s1, h2, hf, hu, rfl⟩
+
+
+/-- the conditions under which a forward goes through (see `forward_succeeds_iff`) -/
+structure ForwardConditions (p : Params) (s : State) (au : Auth) (c : Call) (user rcp : Nat)
+    (ap : Approval) (tgt : Target) : Prop where
+  /-- the user signed exactly (token, max fee, expiration, target, fn, args) -/
+  signed : userSigned au user (tupleOf c) = true
+  fee : FeeConditions p s au c.token c.fee c.maxFee c.expiration user rcp ap
+  /-- the target call goes through (and, if it demands it, the user signed the nested call) -/
+  target : tgt = .ok ∨ (tgt = .needsUser ∧ subSigned au user (targetInv c) = true)
+
+theorem collectFeeAndInvoke_conditions {p : Params} {s s' : State} {au : Auth} {c : Call} {user rcp : Nat}
+    {ap : Approval} {tgt : Target} (h : collectFeeAndInvoke p s au c user rcp ap tgt = .ok s') :
+    ForwardConditions p s au c user rcp ap tgt := by
+  obtain ⟨hu, s1, h1, hf, ht, _⟩ := collectFeeAndInvoke_ok h
+  refine ⟨hu, collectFee_conditions h1, ?_⟩
+  cases tgt with
+  | ok => exact .inl rfl
+  | fail => exact absurd rfl hf
+  | needsUser => exact .inr ⟨rfl, ht rfl⟩
+
+theorem collectFeeAndInvoke_succeeds {p : Params} {s : State} {au : Auth} {c : Call} {user rcp : Nat}
+    {ap : Approval} {tgt : Target} (hc : ForwardConditions p s au c user rcp ap tgt) :
+    ∃ s', collectFeeAndInvoke p s au c user rcp ap tgt = .ok s' := by
+  obtain ⟨s1, h1⟩ := collectFee_succeeds hc.fee
+  have ht : ∃ s2, invokeTarget s1 au user (targetInv c) tgt = .ok s2 := by
+    rcases hc.target with h | ⟨h, hs⟩
+    · subst h; exact ⟨_, rfl⟩
+    · subst h; dsimp only [invokeTarget]; rw [if_pos hs]; exact ⟨_, rfl⟩
+  obtain ⟨s2, h2⟩ := ht
+  unfold collectFeeAndInvoke requireAuthForArgs
+  rw [hc.signed, ensure_true, ok_bind, h1, ok_bind, h2, ok_bind]
+  exact ⟨_, rfl⟩
+
+theorem requireAuth_of_mem {au : Auth} {a : Nat} (h : a ∈ au.plain) : requireAuth au a = .ok () := by
+  unfold requireAuth; rw [decide_eq_true h]; rfl
+
+theorem ensureRole_of_mem {m : List Nat} {a : Nat} (h : a ∈ m) : ensureRole m a = .ok () := by
+  unfold ensureRole; rw [decide_eq_true h]; rfl
+
+/-- under the token's supply invariant (C01) the credit of the fee can never leave i128 -/
+theorem credit_in128_of_inv {U : List Nat} (hn : U.Nodup) {ts : OZ.Fungible.State} (hi : OZ.Fungible.Inv U ts)
+    (user rcp : Nat) (fee : Int) (h0 : 0 ≤ fee) (hb : fee ≤ ts.bal user) :
+    in128 ((upd ts.bal user (ts.bal user - fee)) rcp + fee) := by
+  have hs := hi.supHi
+  by_cases hr : rcp = user
+  · subst hr
+    rw [OZ.FeeForwarder.upd_same]
+    have := OZ.Fungible.bal_le_supply hn hi rcp
+    have := hi.nonneg rcp
+    unfold in128 I128_MIN; constructor <;> omega
+  · rw [OZ.FeeForwarder.upd_other _ _ _ _ hr]
+    have := OZ.Fungible.bal_add_le_supply hn hi user rcp (Ne.symm hr)
+    have := hi.nonneg rcp
+    unfold in128 I128_MIN; constructor <;> omega
 
 /-! ### the allow-list inside the world machine -/
 
